@@ -269,7 +269,11 @@ func c06GenQuicPlan(t *rapid.T) *c06QuicPlan {
 	if rapid.IntRange(0, 5).Draw(t, "negative") == 0 {
 		p.Mutated = true
 		i := rapid.IntRange(0, len(p.Datagrams)-1).Draw(t, "corruptwhich")
-		switch kind := rapid.SampledFrom([]string{"flip", "flip", "trunc", "random"}).Draw(t, "corruptkind"); kind {
+		switch kind := rapid.SampledFrom([]string{"flip", "flip", "trunc", "random", "hdrcut", "hdrcut"}).Draw(t, "corruptkind"); kind {
+		case "hdrcut":
+			cut := rapid.SampledFrom(c06HeaderCuts(p.Datagrams[i])).Draw(t, "primaryhdrcutat")
+			p.Datagrams[i] = p.Datagrams[i][:cut]
+			p.Ranges[i], p.Corrupt[i] = nil, "hdrcut"
 		case "flip":
 			d := append([]byte(nil), p.Datagrams[i]...)
 			j := rapid.IntRange(0, len(d)-1).Draw(t, "flipbyte")
@@ -298,6 +302,65 @@ func c06GenQuicPlan(t *rapid.T) *c06QuicPlan {
 	return p
 }
 
+// c06HeaderCuts returns every header-field boundary of the first long-header packet
+// of d: after the flags byte, the version, the DCID length, inside and exactly after
+// the DCID, the SCID length, the SCID, the token length, the token, the Length field
+// and each possible end of the packet number.
+func c06HeaderCuts(d []byte) []int {
+	cuts := []int{1, 5, 6}
+	if len(d) < 7 {
+		return cuts
+	}
+	pos := 6
+	dl := int(d[5])
+	for k := 1; k <= dl; k++ {
+		cuts = append(cuts, pos+k)
+	}
+	pos += dl
+	if pos >= len(d) {
+		return cuts
+	}
+	sl := int(d[pos])
+	cuts = append(cuts, pos+1)
+	pos += 1 + sl
+	cuts = append(cuts, pos)
+	rd := func() int {
+		if pos >= len(d) {
+			return -1
+		}
+		n := 1 << (d[pos] >> 6)
+		if pos+n > len(d) {
+			return -1
+		}
+		v := int(d[pos] & 0x3f)
+		for i := 1; i < n; i++ {
+			v = v<<8 | int(d[pos+i])
+		}
+		pos += n
+		return v
+	}
+	tl := rd()
+	if tl < 0 {
+		return cuts
+	}
+	cuts = append(cuts, pos)
+	if tl > 0 {
+		cuts = append(cuts, pos+tl/2, pos+tl)
+	}
+	pos += tl
+	if rd() < 0 {
+		return cuts
+	}
+	cuts = append(cuts, pos-1, pos, pos+1, pos+2, pos+3, pos+4, pos+8, pos+19, pos+20)
+	var out []int
+	for _, c := range cuts {
+		if c >= 1 && c < len(d) {
+			out = append(out, c)
+		}
+	}
+	return out
+}
+
 // c06GenContinuation extends the history of the flow beyond its first flight: the
 // session lives on after its verdict (handlePkt compacts it and keeps it for 5 s),
 // so retransmitted Initials, junk and a second connection attempt on the same
@@ -319,7 +382,7 @@ func c06GenContinuation(t *rapid.T, p *c06QuicPlan, secondAttempt bool) {
 	}
 	for ph := rapid.SampledFrom([]int{0, 1, 1, 2, 2, 3}).Draw(t, "nphases"); ph > 0 && len(clean) > 0; ph-- {
 		event := rapid.SampledFrom([]string{"endpoint_lost", "endpoint_lost", ""}).Draw(t, "phaseevent")
-		kinds := []string{"retransmit_flight", "retransmit_flight", "retransmit_flight", "retransmit_one", "junk_trunc", "junk_random", "junk_flip"}
+		kinds := []string{"retransmit_flight", "retransmit_flight", "retransmit_flight", "retransmit_one", "junk_trunc", "junk_random", "junk_flip", "junk_hdrcut", "junk_hdrcut"}
 		if secondAttempt {
 			kinds = append(kinds, "second_attempt")
 		}
@@ -347,6 +410,15 @@ func c06GenContinuation(t *rapid.T, p *c06QuicPlan, secondAttempt bool) {
 		case "junk_trunc":
 			d := p.Datagrams[clean[0]]
 			add(append([]byte(nil), d[:rapid.IntRange(min(40, len(d)), len(d)-1).Draw(t, "junktrunc")]...), nil, "trunc", event, 0)
+			p.Mutated = true
+		case "junk_hdrcut":
+			// an Initial cut at a header-field boundary, sent 1-3 times in a row
+			d := p.Datagrams[rapid.SampledFrom(clean).Draw(t, "hdrcutwhich")]
+			cut := rapid.SampledFrom(c06HeaderCuts(d)).Draw(t, "hdrcutat")
+			for n, ev := rapid.IntRange(1, 3).Draw(t, "hdrcuttimes"), event; n > 0; n-- {
+				add(append([]byte(nil), d[:cut]...), nil, "hdrcut", ev, 0)
+				ev = ""
+			}
 			p.Mutated = true
 		case "junk_random":
 			add(c06Bytes(t, "junkrandom", 1, 1300), nil, "random", event, 0)
